@@ -26,8 +26,12 @@ def run_mutant(prop, mutant, keep=False, tier='quick', base='/repo'):
     shutil.rmtree(root, ignore_errors=True)
     os.makedirs(root, exist_ok=True)
     subprocess.check_call(['rsync', '-a', '--exclude', 'target', '--exclude', '.git', base.rstrip('/') + '/', root + '/'])
-    for e in mutant['edits']:
-        apply_edit(root, *e)
+    try:
+        for e in mutant['edits']:
+            apply_edit(root, *e)
+    except RuntimeError as ex_:
+        shutil.rmtree(root, ignore_errors=True)
+        return {'name': name, 'verdict': 'infra-error', 'rc': -1, 'wall_s': 0.0, 'lines': [str(ex_)[:200]]}, ''
     evdir = os.path.join(root, '_evidence')
     env = dict(os.environ, VERIF_REPO=root, VERIF_EVIDENCE_DIR=evdir,
                VERIF_REPLAY_TARGET=os.path.join(CACHE, 'mutants', 'replay-target'))
